@@ -177,14 +177,24 @@ func genTagDoc(r *Rng) tagDoc {
 		case 1: // URL with HTTP methods
 			ut := pick()
 			b.WriteString("URL " + qpath + "\n")
-			// (indentation is immaterial: a Tags line after a method would belong to that method)
-			tagsFirst := true
-			if tagsFirst {
-				b.WriteString(tagsLine("  ", ut))
+			// a Tags line after a method that is NOT parenthesised would belong to that method; when the methods are
+			// closed by parentheses, the URL-level Tags line may stand before, between or after them
+			paren := r.Bool()
+			verbs := []string{"GET", "POST", "PUT"}[:1+r.Intn(3)]
+			at := 0
+			if paren {
+				at = r.Intn(len(verbs) + 1)
 			}
-			for _, verb := range []string{"GET", "POST", "PUT"}[:1+r.Intn(3)] {
+			for vi, verb := range verbs {
+				if vi == at {
+					b.WriteString(tagsLine("  ", ut))
+				}
 				own := pick()
-				b.WriteString("  " + verb + "\n" + tagsLine("    ", own) + "    200 any\n")
+				if paren {
+					b.WriteString("  " + verb + "\n  (\n" + tagsLine("    ", own) + "    200 any\n  )\n")
+				} else {
+					b.WriteString("  " + verb + "\n" + tagsLine("    ", own) + "    200 any\n")
+				}
 				id := "http " + verb + " " + path
 				d.inters = append(d.inters, id)
 				d.proto[id] = "http"
@@ -197,7 +207,7 @@ func genTagDoc(r *Rng) tagDoc {
 					d.tags[id] = []string{auto(path)}
 				}
 			}
-			if !tagsFirst {
+			if at == len(verbs) {
 				b.WriteString(tagsLine("  ", ut))
 			}
 		default: // URL with JSON-RPC methods
